@@ -50,6 +50,7 @@ type W struct {
 	MaxPool int
 	own     map[string]bool
 
+	optCache map[string]ucfg.Option
 	opDetail map[string]string // structured facts about the last operation, for known-finding matchers
 	detached []*Handle         // handles whose node was removed / replaced (candidates for re-attachment)
 }
@@ -560,8 +561,17 @@ func setSrc(n *model.Node, src string) {
 	n.Walk(func(x *model.Node, _ []model.Seg) { x.Src = src })
 }
 
+// topLevel: a config created from an empty top-level container is just an
+// empty config (merging an empty list replaces nothing, not even list-ness).
+func topLevel(tree *model.Node) *model.Node {
+	if tree.Empty() {
+		tree.Sticky = 0
+	}
+	return tree
+}
+
 func (w *W) opCreate() string {
-	tree := w.G.Container()
+	tree := topLevel(w.G.Container())
 	rep := w.R.T.Choose(RepCount, "rep")
 	FitRep(tree, rep)
 	opts, src := w.withMeta(w.Opts)
@@ -616,6 +626,23 @@ func (w *W) fieldPaths(a, b *model.Node) [][]string {
 	add(b)
 	sort.Slice(out, func(i, j int) bool { return strings.Join(out[i], ".") < strings.Join(out[j], ".") })
 	return out
+}
+
+// fieldOption returns the Option value for (policy, path); within a run the
+// same Option value is reused by later merges, as an application that keeps
+// its options in variables does.
+func (w *W) fieldOption(h model.Handling, name string) ucfg.Option {
+	key := h.String() + "|" + name
+	if o, ok := w.optCache[key]; ok {
+		w.R.Probe("merge: an Option value is reused by a later call")
+		return o
+	}
+	if w.optCache == nil {
+		w.optCache = map[string]ucfg.Option{}
+	}
+	o := fieldOption(h, name)
+	w.optCache[key] = o
+	return o
 }
 
 func fieldOption(h model.Handling, name string) ucfg.Option {
@@ -763,7 +790,7 @@ func (w *W) opMerge() string {
 			used[key] = true
 			used["~"+last] = true
 			mo.Fields = append(mo.Fields, fo)
-			opts = append(opts, fieldOption(h, name))
+			opts = append(opts, w.fieldOption(h, name))
 			fdesc = append(fdesc, fmt.Sprintf("%s=%s", name, h))
 		}
 	}
@@ -1030,7 +1057,9 @@ func (w *W) opSetChild() string {
 		w.opDetail = map[string]string{"reattach": fmt.Sprint(kind == 2)}
 	} else {
 		tree = w.G.Container()
-		w.R.MustComplete("NewFrom", func() { c, err = ucfg.NewFrom(Render(tree, RepGeneric, w.Opts), w.Opts...) })
+		in := Render(tree, RepGeneric, w.Opts)
+		topLevel(tree)
+		w.R.MustComplete("NewFrom", func() { c, err = ucfg.NewFrom(in, w.Opts...) })
 		if err != nil {
 			w.fail("op-result", "NewFrom", nil, "NewFrom failed on a valid input: %v", err)
 			return ""
@@ -1342,6 +1371,10 @@ func (w *W) readCount(h *Handle) {
 		want = len(c.A)
 	case c.PureDict():
 		want = 1
+	case c.Empty() && c.Sticky == 2:
+		// a list that has only ever been a list and has lost all its elements: 0 entries
+		want = 0
+		w.R.Probe("count: list emptied by removals / empty list")
 	default:
 		return
 	}
